@@ -323,7 +323,7 @@ static void hullCases(int n) {
 }
 
 // general floats: long-double oracle with QuickHull's epsilon
-static void hullFloatCase(const std::string& id, const std::string& kind, const std::vector<vec3>& pts, const Manifold& h) {
+static void hullFloatCase(const std::string& id, const std::string& kind, const std::vector<vec3>& pts, const Manifold& h, double capsuleRad = 0) {
   bool ok = true; std::string msg;
   double scale = 0;
   for (auto& p : pts) scale = std::max(scale, std::max(std::fabs(p.x), std::max(std::fabs(p.y), std::fabs(p.z))));
@@ -345,7 +345,11 @@ static void hullFloatCase(const std::string& id, const std::string& kind, const 
     for (auto& p : pts) {
       ld d = dot(n, sub(V3{(ld)p.x, (ld)p.y, (ld)p.z}, a)) / nn;
       worst = std::max(worst, d);
-      if (d > allow) { ok = false; std::ostringstream s; s << "hullf-point-outside: an input point is " << (double)d << " outside a face plane, allowance " << (double)allow; msg = s.str(); break; }
+      if (d > allow) { ok = false; std::ostringstream s;
+        // known finding (known_findings.txt): on thin capsules QuickHull drops input points of the end caps; the lost points stay within a fraction of the cap radius
+        if (capsuleRad > 0 && d <= 0.3L * capsuleRad) s << "hull-thin-capsule-drops-points: Hull of two round clusters of radius " << capsuleRad << " far apart leaves an input point " << (double)d << " outside a face plane, allowance " << (double)allow;
+        else s << "hullf-point-outside: an input point is " << (double)d << " outside a face plane, allowance " << (double)allow;
+        msg = s.str(); break; }
     }
   }
   std::ostringstream tag;
@@ -355,10 +359,21 @@ static void hullFloatCase(const std::string& id, const std::string& kind, const 
   stats["hullf"]++;
 }
 static void hullFloatCases(int n) {
+  {  // the recorded instance of the thin-capsule finding, every run: two Sphere(1e-4, 16) one unit apart
+    std::vector<Manifold> ms{Manifold::Sphere(1e-4, 16), Manifold::Sphere(1e-4, 16).Translate(vec3(1, 0, 0))}; std::vector<vec3> pts;
+    for (auto& m : ms) { MeshGL64 g = m.GetMeshGL64(); for (size_t v = 0; v < g.NumVert(); v++) pts.push_back(vec3(g.vertProperties[v * g.numProp], g.vertProperties[v * g.numProp + 1], g.vertProperties[v * g.numProp + 2])); }
+    hullFloatCase("hfc", "capsule-fixed", pts, Manifold::Hull(ms), 1e-4);
+  }
   for (int i = 0; i < n; i++) {
-    std::vector<vec3> pts; std::string kind; Manifold h;
-    int which = i % 7;
-    if (which == 5) {   // slender but three-dimensional: thousands of epsilons thick, aspect 1e2..1e5 (the collinear-fallback decision of setupInitialTetrahedron)
+    std::vector<vec3> pts; std::string kind; Manifold h; double capRad = 0;
+    int which = i % 8;
+    if (which == 7) {   // thin capsules: two small round solids far apart (the base triangle of the initial tetrahedron is a sliver, its un-normalised normal is tiny)
+      kind = "capsule"; double rad = pow(10, urange(-5, -1)); capRad = 0.5 * rad; double len = pow(10, urange(-0.5, 1.5)); int seg = 4 * (1 + (int)R->below(8));
+      double c1 = cos(urange(0, 3.14)), s1 = sqrt(1 - c1 * c1); bool axis = R->below(2) == 0; vec3 dir = axis ? vec3(1, 0, 0) : vec3(c1, s1 * 0.6, s1 * 0.8);
+      std::vector<Manifold> ms{Manifold::Sphere(rad, seg), Manifold::Sphere(rad * urange(0.5, 1), seg).Translate(dir * len)};
+      for (auto& m : ms) { MeshGL64 g = m.GetMeshGL64(); for (size_t v = 0; v < g.NumVert(); v++) pts.push_back(vec3(g.vertProperties[v * g.numProp], g.vertProperties[v * g.numProp + 1], g.vertProperties[v * g.numProp + 2])); }
+      h = R->below(2) ? Manifold::Hull(ms) : Manifold::Hull(pts); }
+    else if (which == 5) {   // slender but three-dimensional: thousands of epsilons thick, aspect 1e2..1e5 (the collinear-fallback decision of setupInitialTetrahedron)
       kind = "needle"; int m = 8 + (int)R->below(60); double len = pow(10, urange(-1, 2)), a = len * pow(10, urange(-5, -2));
       double c1 = cos(urange(0, 3.14)), s1 = sqrt(1 - c1 * c1), c2 = cos(urange(0, 3.14)), s2 = sqrt(1 - c2 * c2); bool axis = R->below(3) == 0;
       for (int j = 0; j < m; j++) { double x = urange(0, len), y = urange(-a, a), z = urange(-a, a); if (j < 8) { x = (j & 1) ? len : 0; y = (j & 2) ? a : -a; z = (j & 4) ? a : -a; }
@@ -373,7 +388,7 @@ static void hullFloatCases(int n) {
     else if (which == 2) { kind = "clustered"; int kc = 4 + (int)R->below(5); std::vector<vec3> c; for (int j = 0; j < kc; j++) c.push_back(vec3(urange(-5, 5), urange(-5, 5), urange(-5, 5))); int m = 30 + (int)R->below(300); for (int j = 0; j < m; j++) { vec3 q = c[R->below(kc)]; pts.push_back(q + vec3(urange(-1e-3, 1e-3), urange(-1e-3, 1e-3), urange(-1e-3, 1e-3))); } h = Manifold::Hull(pts); }
     else if (which == 3) { kind = "manifold"; Manifold s = Manifold::Sphere(urange(0.5, 2), 4 * (1 + (int)R->below(6))).Rotate(urange(0, 90), urange(0, 90), urange(0, 90)) + Manifold::Cube(vec3(urange(0.5, 3), urange(0.5, 3), urange(0.5, 3)), true).Rotate(urange(0, 90), urange(0, 90), 0).Translate(vec3(urange(-2, 2), urange(-2, 2), urange(-2, 2))); MeshGL64 g = s.GetMeshGL64(); for (size_t v = 0; v < g.NumVert(); v++) pts.push_back(vec3(g.vertProperties[v * g.numProp], g.vertProperties[v * g.numProp + 1], g.vertProperties[v * g.numProp + 2])); h = s.Hull(); }
     else { kind = "manifolds"; std::vector<Manifold> ms; int m = 2 + (int)R->below(3); for (int j = 0; j < m; j++) ms.push_back(Manifold::Cylinder(urange(0.5, 2), urange(0.3, 1), urange(0.1, 1), 5 + (int)R->below(12)).Rotate(urange(0, 180), urange(0, 180), 0).Translate(vec3(urange(-3, 3), urange(-3, 3), urange(-3, 3)))); for (auto& s : ms) { MeshGL64 g = s.GetMeshGL64(); for (size_t v = 0; v < g.NumVert(); v++) pts.push_back(vec3(g.vertProperties[v * g.numProp], g.vertProperties[v * g.numProp + 1], g.vertProperties[v * g.numProp + 2])); } h = Manifold::Hull(ms); }
-    hullFloatCase("hf" + std::to_string(i), kind, pts, h);
+    hullFloatCase("hf" + std::to_string(i), kind, pts, h, capRad);
   }
 }
 
